@@ -56,6 +56,20 @@ pub enum Event {
     Rollback,
     /// `save_prev_iterate` was called
     SavePrev,
+    /// exit of `DefaultVariables::calc_step_length`: the scalars it read, the cap it passed
+    /// to the cones, what the cones answered and what it returned
+    StepLen {
+        tau: f64,
+        kappa: f64,
+        dtau: f64,
+        dkappa: f64,
+        alpha_cap: f64,
+        alpha_z: f64,
+        alpha_s: f64,
+        alpha_out: f64,
+        combined: bool,
+        max_step_fraction: f64,
+    },
     /// exit of `DefaultKKTSystem::solve`: the direction it assembled, the right-hand side it
     /// was given and the iterate it linearised about (dir 0 = affine, 1 = combined)
     KktSolve {
